@@ -224,8 +224,83 @@ def w_step(cfg, tier):
     return col.result()
 
 
+def w_loop(cfg, tier):
+    """The outer loop of decode(): with the step (sweep_move) replaced by a scripted stub that flips
+    solver-chosen edges into whatever correction dict it is handed (through the real StabilizerCode.site)
+    and decides symbolically whether excitations remain, the returned correction must be the Pauli product
+    of ALL flips of ALL steps: an edge flipped an even number of times is absent, across sweeps, directions
+    and rounds.  (The steps themselves are decided by the window invariant above.)"""
+    code, dec, Dec = make(cfg)
+    n, m = code.n, code.n_stabilizers
+    col = hz.Collector(cfg)
+    col.encoded(Dec.decode, Dec.get_initial_state)
+    qc = list(code.qubit_coordinates)
+    edges = [qc[0], qc[len(qc) // 2]]
+    rotated = Dec.__name__.startswith('Rotated')
+    # step indices at which the scripted step may flip an edge: the first two steps, the first step of the
+    # second sweep direction and the first step of the second round (loop bounds as decode() computes them);
+    # excitations remain (concretely) until the last of these steps, so every loop level is entered
+    if rotated:
+        S = 4 * (2 * int(max(code.size)) + 2)
+        K = [0, 1, S, 8 * S]
+    else:
+        K = [0, 1, 2]
+    max_calls = len(K)
+    eng = Engine(name=cfg, max_paths=6000)
+    with eng:
+        def fn():
+            calls = []
+            count = [0]
+
+            def stub_move(signs, correction, *direction):
+                i = count[0]
+                count[0] += 1
+                out = np.zeros(m, dtype=np.uint8)
+                if i in K:
+                    which = eng.integer(eng.path_name('flip'), 0, len(edges))      # len(edges) = no flip
+                    eng.assume((which >= 0) & (which <= len(edges)))
+                    w_ = int(which)
+                    if w_ < len(edges):
+                        code.site(correction, 'Z', edges[w_])
+                    calls.append(w_)
+                if i < K[-1]:
+                    out[0] = 1                      # excitations remain: keep sweeping
+                return out
+            dec.sweep_move = stub_move
+            if hasattr(dec, 'max_rounds'):
+                dec.max_rounds = 3
+            s0 = np.zeros(m, dtype=np.uint8)
+            s0[int(np.flatnonzero(np.asarray(code.x_indices))[0])] = 1        # one face excitation to start
+            c = dec.decode(s0)
+            return [int(x) for x in np.asarray(c)], list(calls)
+        ps = eng.explore(fn)
+    col.absorb(eng)
+    bad = []
+    w = [None]
+    for p in ps:
+        if p.exc is not None:
+            bad.append(z3_and(p.pc))
+            if w[0] is None:
+                w[0] = dict(loop='exception', error=f'{type(p.exc).__name__}: {p.exc}')
+            continue
+        c, calls = p.value
+        want = np.zeros(2 * n, dtype=int)
+        for w_ in calls:
+            if w_ < len(edges):
+                want[n + code.qubit_index[edges[w_]]] ^= 1
+        ok = c == want.tolist()
+        bad.append(z3_and(p.pc + [z3.BoolVal(not ok)]))
+        if not ok and w[0] is None:
+            w[0] = dict(flips=[list(edges[x]) if x < len(edges) else None for x in calls], got_weight=int(sum(c)))
+    col.prove('C10/decode-loop/correction-is-the-product-of-all-step-flips', eng.base, z3_or(bad), lambda mo: w[0],
+              f'{len(ps)} scripted step sequences: at step indices {K} (first steps, first step of the next direction, first '
+              f'step of the next round) the step flips one of {len(edges)} edges or none (solver-chosen): an edge flipped '
+              'twice is removed, whatever sweep / direction / round the flips fall in')
+    return col.result()
+
+
 def worker(cfg, tier='quick'):
-    return {'geometry': w_geometry, 'step': w_step}[cfg.split()[0]](cfg, tier)
+    return {'geometry': w_geometry, 'step': w_step, 'loop': w_loop}[cfg.split()[0]](cfg, tier)
 
 
 def replay(path):
@@ -241,6 +316,12 @@ def replay(path):
     n, m = code.n, code.n_stabilizers
     Hd = code.stabilizer_matrix.toarray()
     bad = False
+    if cfg.startswith('loop'):
+        res = w_loop(cfg, 'quick')
+        bad = any(o['oid'] == oid and o['verdict'] == 'sat' for o in res['obs'])
+        print('scripted flips', w)
+        print('REPLAY', 'reproduced' if bad else 'not-reproduced', oid, cfg)
+        return 0
     try:
         if cfg.startswith('geometry'):
             edge = tuple(w['edge'])
@@ -292,6 +373,8 @@ def configs(tier):
     for c in cubic + rot:
         out.append(f'geometry {c}')
         out.append(f'step {c}')
+    out += ['loop Toric3DCode(2,2,2)', 'loop Planar3DCode(2,2,2)', 'loop RotatedPlanar3DCode(2,2,2)',
+            'loop RotatedToric3DCode(2,2,2)']
     return out
 
 
